@@ -36,9 +36,15 @@ impl<'a, 't, 's> ObjectCodeMap<'a, 't, 's> {
         let (properties, callbacks) =
             build_properties_callbacks(ctx, obj_node.class(), &binding_map, diagnostics);
 
-        let attached_type_map = diagnostics
-            .consume_err(obj_node.obj().build_attached_type_map(ctx.source))
-            .unwrap_or_default();
+        // a duplicated attached binding shouldn't invalidate the others; otherwise the layout
+        // index of the sibling objects would be changed
+        let mut attached_errors = Vec::new();
+        let attached_type_map = obj_node
+            .obj()
+            .build_attached_type_map_lossy(ctx.source, &mut attached_errors);
+        for e in attached_errors {
+            diagnostics.push(e);
+        }
         let attached_properties = attached_type_map
             .iter()
             .filter_map(|(names, (id, binding_map))| {
